@@ -1,6 +1,7 @@
 (* Proofs about Model/Broker.v: every interleaving of Reader / Broker / Responder refines the
    sequential specification [seq_run] on each output stream, the system never deadlocks before
    all work is done, it terminates, and documents are isolated from each other. *)
+From Coq Require Import PeanoNat.
 From Spl Require Import Model.Broker.
 
 Local Arguments COpen {uri payload req}.
@@ -183,4 +184,525 @@ Lemma diag_snoc m a c :
   diagnostics (seq_run m (a ++ [c])) = diagnostics (seq_run m a) ++ msg_diag (seq_docs m a) c.
 Proof. rewrite diag_app, diag_cons. cbn. rewrite app_nil_r. reflexivity. Qed.
 
+(* ------------------------------------------------------------------------------------------ *)
+(* what the broker will still do with its queue                                                *)
+
+Definition apply_dreq (m : docs) (x : dreq) : docs :=
+  match x with
+  | DOpen u p => insert m u (open_doc p)
+  | DChange u p => match lookup m u with Some d0 => insert m u (change_doc d0 p) | None => m end
+  | DClose u => remove m u
+  | DGetInfo _ => m
+  end.
+
+Definition diag_dreq (m : docs) (x : dreq) : list out :=
+  match x with
+  | DOpen u p => diags_for u (open_doc p)
+  | DChange u p => match lookup m u with Some d0 => diags_for u (change_doc d0 p) | None => [] end
+  | _ => []
+  end.
+
+Fixpoint apply_q (m : docs) (q : list dreq) : docs :=
+  match q with
+  | [] => m
+  | x :: q' => apply_q (apply_dreq m x) q'
+  end.
+
+Fixpoint diags_q (m : docs) (q : list dreq) : list out :=
+  match q with
+  | [] => []
+  | x :: q' => diag_dreq m x ++ diags_q (apply_dreq m x) q'
+  end.
+
+Definition is_getinfo (x : dreq) : bool := match x with DGetInfo _ => true | _ => false end.
+Definition no_getinfo (q : list dreq) : Prop := Forall (fun x => is_getinfo x = false) q.
+
+Lemma apply_q_snoc q : forall m x, apply_q m (q ++ [x]) = apply_dreq (apply_q m q) x.
+Proof. induction q as [|y q IH]; intros m x; [reflexivity|]. cbn. apply IH. Qed.
+
+Lemma diags_q_snoc q : forall m x, diags_q m (q ++ [x]) = diags_q m q ++ diag_dreq (apply_q m q) x.
+Proof.
+  induction q as [|y q IH]; intros m x; cbn [app diags_q apply_q].
+  - rewrite app_nil_r. reflexivity.
+  - rewrite IH, app_assoc. reflexivity.
+Qed.
+
+Lemma no_getinfo_snoc q x : no_getinfo q -> is_getinfo x = false -> no_getinfo (q ++ [x]).
+Proof. intros H1 H2. apply Forall_app. split; [assumption|]. constructor; [assumption|constructor]. Qed.
+
+(* ------------------------------------------------------------------------------------------ *)
+(* the invariant                                                                               *)
+
+(* the part about the pending request and the response stream; [R] is the response stream
+   already committed (written or in the output channel) *)
+Definition resp_inv (w : option (N * req)) (rp : option (option dstate)) (dq : list dreq) (st : docs)
+                    (R : list out) (done : list cmsg) : Prop :=
+  match w with
+  | None => rp = None /\ no_getinfo dq /\ R = responses (seq_run [] done)
+  | Some (id, r) =>
+      exists done', done = done' ++ [CReq id r] /\ R = responses (seq_run [] done') /\
+        match rp with
+        | Some d => dq = [] /\ d = lookup st (req_uri r)
+        | None => exists q, dq = q ++ [DGetInfo (req_uri r)] /\ no_getinfo q
+        end
+  end.
+
+Definition Inv (ms : list cmsg) (s : state) : Prop :=
+  exists done,
+    ms = done ++ inp s /\
+    apply_q (store s) (docq s) = seq_docs [] done /\
+    diagnostics (written s) ++ diagnostics (ioq s) ++ bpend s ++ diags_q (store s) (docq s)
+      = diagnostics (seq_run [] done) /\
+    all_diag (bpend s) /\
+    resp_inv (waiting s) (reply s) (docq s) (store s) (responses (written s) ++ responses (ioq s)) done.
+
+Lemma Inv_init ms : Inv ms (init ms).
+Proof.
+  exists []. cbn. repeat split; constructor.
+Qed.
+
+(* the broker takes a notification from its queue *)
+Lemma resp_inv_pop w rp x q st st' R done :
+  is_getinfo x = false -> resp_inv w rp (x :: q) st R done -> resp_inv w rp q st' R done.
+Proof.
+  intros Hx. unfold resp_inv. destruct w as [[id r]|].
+  - intros (done' & E1 & E2 & H). exists done'. split; [assumption|]. split; [assumption|].
+    destruct rp as [d|].
+    + destruct H as [H _]. discriminate.
+    + destruct H as (q0 & E & Hq0). destruct q0 as [|y q0]; cbn in E; injection E as -> E.
+      * discriminate.
+      * exists q0. split; [assumption|]. inversion Hq0; assumption.
+  - intros (E1 & H & E2). split; [assumption|]. split; [|assumption]. inversion H; assumption.
+Qed.
+
+(* the broker serves GetInfo *)
+Lemma resp_inv_getinfo w rp u q st R done :
+  resp_inv w rp (DGetInfo u :: q) st R done -> resp_inv w (Some (lookup st u)) q st R done.
+Proof.
+  unfold resp_inv. destruct w as [[id r]|].
+  - intros (done' & E1 & E2 & H). exists done'. split; [assumption|]. split; [assumption|].
+    destruct rp as [d|].
+    + destruct H as [H _]. discriminate.
+    + destruct H as (q0 & E & Hq0). destruct q0 as [|y q0]; cbn in E; injection E as E E'.
+      * subst. split; reflexivity.
+      * subst y. inversion Hq0; discriminate.
+  - intros (_ & H & _). inversion H; discriminate.
+Qed.
+
+Lemma step_inv ms p s s' : Inv ms s -> step p s = Some s' -> Inv ms s'.
+Proof.
+  intros (done & Hms & Hst & Hdg & Hbp & Hr) Hstep.
+  destruct s as [i w rp dq io bp st wr].
+  unfold Broker.step in Hstep.
+  cbn [inp waiting reply docq ioq bpend store written] in *.
+  destruct p.
+  - (* Reader *)
+    destruct w as [[id r]|].
+    + (* deliver the response of the pending request *)
+      destruct rp as [d|]; [|discriminate]. destruct (room cap io); [|discriminate].
+      injection Hstep as <-.
+      destruct Hr as (done' & E1 & E2 & -> & Ed). cbn in Hst.
+      exists done. cbn [inp waiting reply docq ioq bpend store written].
+      split; [assumption|]. split; [assumption|].
+      split. { rewrite diagnostics_app. cbn. rewrite app_nil_r. assumption. }
+      split; [assumption|].
+      split; [reflexivity|]. split; [constructor|].
+      rewrite responses_app, app_assoc, E2, E1, resp_snoc. cbn.
+      rewrite Ed, Hst, E1, seq_docs_snoc. reflexivity.
+    + (* read the next message *)
+      destruct i as [|m rest]; [discriminate|].
+      destruct Hr as (-> & Hng & ER).
+      assert (Hms' : ms = (done ++ [m]) ++ rest) by (rewrite <- app_assoc; exact Hms).
+      destruct m as [u p|u p|u|id r|id k|].
+      * destruct (room cap dq); [|discriminate]. injection Hstep as <-.
+        exists (done ++ [COpen u p]). cbn [inp waiting reply docq ioq bpend store written].
+        split; [assumption|].
+        split. { rewrite apply_q_snoc, seq_docs_snoc, Hst. reflexivity. }
+        split. { rewrite diags_q_snoc, diag_snoc, Hst, <- Hdg, <- !app_assoc. reflexivity. }
+        split; [assumption|].
+        split; [reflexivity|]. split; [apply no_getinfo_snoc; [assumption|reflexivity]|].
+        rewrite resp_snoc, ER. cbn. rewrite app_nil_r. reflexivity.
+      * destruct (room cap dq); [|discriminate]. injection Hstep as <-.
+        exists (done ++ [CChange u p]). cbn [inp waiting reply docq ioq bpend store written].
+        split; [assumption|].
+        split. { rewrite apply_q_snoc, seq_docs_snoc, Hst. reflexivity. }
+        split. { rewrite diags_q_snoc, diag_snoc, Hst, <- Hdg, <- !app_assoc. reflexivity. }
+        split; [assumption|].
+        split; [reflexivity|]. split; [apply no_getinfo_snoc; [assumption|reflexivity]|].
+        rewrite resp_snoc, ER. cbn. rewrite app_nil_r. reflexivity.
+      * destruct (room cap dq); [|discriminate]. injection Hstep as <-.
+        exists (done ++ [CClose u]). cbn [inp waiting reply docq ioq bpend store written].
+        split; [assumption|].
+        split. { rewrite apply_q_snoc, seq_docs_snoc, Hst. reflexivity. }
+        split. { rewrite diags_q_snoc, diag_snoc, Hst, <- Hdg, <- !app_assoc. reflexivity. }
+        split; [assumption|].
+        split; [reflexivity|]. split; [apply no_getinfo_snoc; [assumption|reflexivity]|].
+        rewrite resp_snoc, ER. cbn. rewrite app_nil_r. reflexivity.
+      * destruct (room cap dq); [|discriminate]. injection Hstep as <-.
+        exists (done ++ [CReq id r]). cbn [inp waiting reply docq ioq bpend store written].
+        split; [assumption|].
+        split. { rewrite apply_q_snoc, seq_docs_snoc, Hst. reflexivity. }
+        split. { rewrite diags_q_snoc, diag_snoc, Hst, <- Hdg, <- !app_assoc. reflexivity. }
+        split; [assumption|].
+        exists done. split; [reflexivity|]. split; [assumption|].
+        exists dq. split; [reflexivity|assumption].
+      * destruct (room cap io); [|discriminate]. injection Hstep as <-.
+        exists (done ++ [CLocal id k]). cbn [inp waiting reply docq ioq bpend store written].
+        split; [assumption|].
+        split. { rewrite seq_docs_snoc, Hst. reflexivity. }
+        split. { rewrite diagnostics_app, diag_snoc, <- Hdg. cbn. rewrite !app_nil_r. reflexivity. }
+        split; [assumption|].
+        split; [reflexivity|]. split; [assumption|].
+        rewrite resp_snoc, responses_app, app_assoc, ER. reflexivity.
+      * injection Hstep as <-.
+        exists (done ++ [CIgnored]). cbn [inp waiting reply docq ioq bpend store written].
+        split; [assumption|].
+        split. { rewrite seq_docs_snoc, Hst. reflexivity. }
+        split. { rewrite diag_snoc, <- Hdg. cbn. rewrite !app_nil_r. reflexivity. }
+        split; [assumption|].
+        split; [reflexivity|]. split; [assumption|].
+        rewrite resp_snoc, ER. cbn. rewrite app_nil_r. reflexivity.
+  - (* Broker *)
+    destruct bp as [|o b].
+    + destruct dq as [|x q]; [discriminate|].
+      destruct x as [u p|u p|u|u].
+      * injection Hstep as <-. exists done. cbn [inp waiting reply docq ioq bpend store written].
+        split; [assumption|]. split; [exact Hst|]. split; [exact Hdg|].
+        split; [apply all_diag_diags_for|].
+        eapply resp_inv_pop; [|exact Hr]. reflexivity.
+      * cbn in Hst, Hdg. destruct (lookup st u) as [d0|]; injection Hstep as <-;
+          exists done; cbn [inp waiting reply docq ioq bpend store written].
+        -- split; [assumption|]. split; [exact Hst|]. split; [exact Hdg|].
+           split; [apply all_diag_diags_for|].
+           eapply resp_inv_pop; [|exact Hr]. reflexivity.
+        -- split; [assumption|]. split; [exact Hst|]. split; [exact Hdg|].
+           split; [constructor|].
+           eapply resp_inv_pop; [|exact Hr]. reflexivity.
+      * injection Hstep as <-. exists done. cbn [inp waiting reply docq ioq bpend store written].
+        split; [assumption|]. split; [exact Hst|]. split; [exact Hdg|].
+        split; [constructor|].
+        eapply resp_inv_pop; [|exact Hr]. reflexivity.
+      * injection Hstep as <-. exists done. cbn [inp waiting reply docq ioq bpend store written].
+        split; [assumption|]. split; [exact Hst|]. split; [exact Hdg|].
+        split; [constructor|].
+        eapply resp_inv_getinfo. exact Hr.
+    + destruct (room cap io); [|discriminate]. injection Hstep as <-.
+      inversion Hbp as [|o' b' Ho Hb]; subst o' b'.
+      exists done. cbn [inp waiting reply docq ioq bpend store written].
+      split; [assumption|]. split; [assumption|].
+      split. { rewrite diagnostics_app, <- Hdg. cbn. rewrite Ho. cbn. rewrite <- !app_assoc. reflexivity. }
+      split; [assumption|].
+      rewrite responses_app. cbn. rewrite Ho, app_nil_r. assumption.
+  - (* Responder *)
+    destruct io as [|o q]; [discriminate|]. injection Hstep as <-.
+    exists done. cbn [inp waiting reply docq ioq bpend store written].
+    split; [assumption|]. split; [assumption|].
+    split. { rewrite app_assoc. unfold diagnostics. rewrite filter_snoc_cons, <- app_assoc. exact Hdg. }
+    split; [assumption|].
+    unfold responses. rewrite filter_snoc_cons. exact Hr.
+Qed.
+
+Lemma exec_inv ms sched : forall s, Inv ms s -> Inv ms (exec sched s).
+Proof.
+  induction sched as [|p sched IH]; intros s H; [exact H|].
+  cbn [Broker.exec]. apply IH. destruct (step p s) as [s'|] eqn:E; [|exact H].
+  eapply step_inv; eassumption.
+Qed.
+
+Lemma reach_inv ms sched : Inv ms (exec sched (init ms)).
+Proof. apply exec_inv, Inv_init. Qed.
+
+(* ------------------------------------------------------------------------------------------ *)
+(* 1. refinement at quiescence, 2. prefix safety at every moment                               *)
+
+Theorem refines ms sched :
+  let s := exec sched (init ms) in
+  quiescent s ->
+  responses (written s) = responses (seq_run [] ms) /\
+  diagnostics (written s) = diagnostics (seq_run [] ms).
+Proof.
+  intros s (Hi & Hw & Hd & Hio & Hb).
+  destruct (reach_inv ms sched) as (done & Hms & _ & Hdg & _ & Hr). fold s in Hms, Hdg, Hr.
+  rewrite Hi, app_nil_r in Hms. subst done.
+  rewrite Hw in Hr. destruct Hr as (_ & _ & Hr).
+  rewrite Hio in Hr, Hdg. rewrite Hb, Hd in Hdg. cbn in Hr, Hdg. rewrite !app_nil_r in *.
+  split; assumption.
+Qed.
+
+Theorem prefix ms sched :
+  let s := exec sched (init ms) in
+  (exists t, responses (seq_run [] ms) = responses (written s) ++ t) /\
+  (exists t, diagnostics (seq_run [] ms) = diagnostics (written s) ++ t).
+Proof.
+  intros s.
+  destruct (reach_inv ms sched) as (done & Hms & _ & Hdg & _ & Hr). fold s in Hms, Hdg, Hr.
+  split.
+  - unfold resp_inv in Hr. destruct (waiting s) as [[id r]|].
+    + destruct Hr as (done' & E1 & E2 & _). subst done. rewrite <- app_assoc in Hms.
+      rewrite Hms, resp_app, <- E2, <- app_assoc. eexists. reflexivity.
+    + destruct Hr as (_ & _ & E2).
+      rewrite Hms, resp_app, <- E2, <- app_assoc. eexists. reflexivity.
+  - rewrite Hms, diag_app, <- Hdg, <- app_assoc. eexists. reflexivity.
+Qed.
+
+(* at quiescence the broker's map is the sequential one (so [isolation] below speaks about the
+   real store) *)
+Theorem store_final ms sched :
+  let s := exec sched (init ms) in
+  quiescent s -> store s = seq_docs [] ms.
+Proof.
+  intros s (Hi & _ & Hd & _).
+  destruct (reach_inv ms sched) as (done & Hms & Hst & _). fold s in Hms, Hst.
+  rewrite Hi, app_nil_r in Hms. subst done. rewrite Hd in Hst. exact Hst.
+Qed.
+
+(* 5. a client that did not announce publishDiagnostics never receives diagnostics *)
+Lemma seq_run_no_diag ms : forall m, send_diagnostics = false -> diagnostics (seq_run m ms) = [].
+Proof.
+  intros m H. revert m. induction ms as [|c r IH]; intros m; [reflexivity|].
+  rewrite diag_cons, IH, app_nil_r.
+  destruct c; cbn; try reflexivity; unfold Broker.diags_for; rewrite H; [reflexivity|].
+  destruct (lookup m u); reflexivity.
+Qed.
+
+Theorem caps ms sched :
+  send_diagnostics = false -> diagnostics (written (exec sched (init ms))) = [].
+Proof.
+  intros H. destruct (prefix ms sched) as (_ & t & E). cbv zeta in E.
+  rewrite seq_run_no_diag in E by assumption.
+  symmetry in E. apply app_eq_nil in E. apply E.
+Qed.
+
+(* ------------------------------------------------------------------------------------------ *)
+(* 3. no deadlock                                                                              *)
+
+Hypothesis cap_pos : (0 < cap)%nat.
+
+Lemma room_nil {A} : room cap (@nil A) = true.
+Proof. unfold room. cbn [length]. apply Nat.ltb_lt. exact cap_pos. Qed.
+
+Lemma quiescent_dec (s : state) : {quiescent s} + {~ quiescent s}.
+Proof.
+  unfold quiescent.
+  destruct (inp s); [|right; intros (H & _); discriminate].
+  destruct (waiting s); [right; intros (_ & H & _); discriminate|].
+  destruct (docq s); [|right; intros (_ & _ & H & _); discriminate].
+  destruct (ioq s); [|right; intros (_ & _ & _ & H & _); discriminate].
+  destruct (bpend s); [|right; intros (_ & _ & _ & _ & H); discriminate].
+  left. repeat split.
+Qed.
+
+Lemma inv_enabled ms s : Inv ms s -> ~ quiescent s -> exists p s', step p s = Some s'.
+Proof.
+  intros (done & _ & _ & _ & _ & Hr) Hnq.
+  destruct s as [i w rp dq io bp st wr]. unfold quiescent in Hnq.
+  cbn [inp waiting reply docq ioq bpend store written] in *.
+  destruct io as [|o io].
+  2:{ exists Responder. eexists. reflexivity. }
+  destruct bp as [|o bp].
+  2:{ exists BrokerP. eexists. unfold Broker.step. cbn [inp waiting reply docq ioq bpend store written].
+      rewrite room_nil. reflexivity. }
+  destruct dq as [|x dq].
+  2:{ exists BrokerP. unfold Broker.step. cbn [inp waiting reply docq ioq bpend store written].
+      destruct x; try (eexists; reflexivity). destruct (lookup st u); eexists; reflexivity. }
+  exists Reader. unfold Broker.step. cbn [inp waiting reply docq ioq bpend store written].
+  destruct w as [[id r]|].
+  - destruct Hr as (done' & _ & _ & H). destruct rp as [d|].
+    + rewrite room_nil. eexists. reflexivity.
+    + destruct H as (q & E & _). destruct q; discriminate.
+  - destruct i as [|m rest].
+    + exfalso. apply Hnq. repeat split.
+    + destruct m; rewrite ?room_nil; eexists; reflexivity.
+Qed.
+
+Theorem no_deadlock ms sched :
+  let s := exec sched (init ms) in
+  ~ quiescent s -> exists p s', step p s = Some s'.
+Proof. intros s. apply (inv_enabled ms). apply reach_inv. Qed.
+
+(* ------------------------------------------------------------------------------------------ *)
+(* 4. termination: every enabled step decreases a weighted count of the pending work           *)
+
+Definition measure (s : state) : nat :=
+  6 * length (inp s) + (match waiting s with Some _ => 2 | None => 0 end) +
+  3 * length (docq s) + length (ioq s) + 2 * length (bpend s).
+
+Lemma step_measure p s s' : step p s = Some s' -> (measure s' < measure s)%nat.
+Proof.
+  intros Hstep. destruct s as [i w rp dq io bp st wr].
+  unfold Broker.step in Hstep. unfold measure.
+  cbn [inp waiting reply docq ioq bpend store written] in *.
+  destruct p.
+  - destruct w as [[id r]|].
+    + destruct rp as [d|]; [|discriminate]. destruct (room cap io); [|discriminate].
+      injection Hstep as <-. cbn [inp waiting reply docq ioq bpend store written].
+      rewrite app_length. cbn [length]. lia.
+    + destruct i as [|m rest]; [discriminate|].
+      destruct m; try (destruct (room cap dq); [|discriminate]);
+        try (destruct (room cap io); [|discriminate]);
+        injection Hstep as <-; cbn [inp waiting reply docq ioq bpend store written];
+        rewrite ?app_length; cbn [length]; lia.
+  - destruct bp as [|o b].
+    + destruct dq as [|x q]; [discriminate|].
+      destruct x as [u p|u p|u|u].
+      * injection Hstep as <-. cbn [inp waiting reply docq ioq bpend store written].
+        pose proof (length_diags_for u (open_doc p)). cbn [length]. lia.
+      * destruct (lookup st u) as [d0|]; injection Hstep as <-;
+          cbn [inp waiting reply docq ioq bpend store written]; cbn [length]; [|lia].
+        pose proof (length_diags_for u (change_doc d0 p)). lia.
+      * injection Hstep as <-. cbn [inp waiting reply docq ioq bpend store written]. cbn [length]. lia.
+      * injection Hstep as <-. cbn [inp waiting reply docq ioq bpend store written]. cbn [length]. lia.
+    + destruct (room cap io); [|discriminate]. injection Hstep as <-.
+      cbn [inp waiting reply docq ioq bpend store written]. rewrite app_length. cbn [length]. lia.
+  - destruct io as [|o q]; [discriminate|]. injection Hstep as <-.
+    cbn [inp waiting reply docq ioq bpend store written]. cbn [length]. lia.
+Qed.
+
+Lemma terminates_from ms n : forall s, Inv ms s -> (measure s <= n)%nat ->
+  exists sched, quiescent (exec sched s).
+Proof.
+  induction n as [|n IH]; intros s HI Hn.
+  - destruct (quiescent_dec s) as [Q|NQ]; [exists []; exact Q|].
+    destruct (inv_enabled ms s HI NQ) as (p & s' & E). apply step_measure in E. lia.
+  - destruct (quiescent_dec s) as [Q|NQ]; [exists []; exact Q|].
+    destruct (inv_enabled ms s HI NQ) as (p & s' & E).
+    destruct (IH s') as (sched & Hq).
+    + eapply step_inv; eassumption.
+    + apply step_measure in E. lia.
+    + exists (p :: sched). cbn [Broker.exec]. rewrite E. exact Hq.
+Qed.
+
+Theorem terminates ms : exists sched, quiescent (exec sched (init ms)).
+Proof. apply (terminates_from ms (measure (init ms))); [apply Inv_init|lia]. Qed.
+
+(* from any reachable state, too: no schedule prefix can prevent termination *)
+Theorem terminates_any ms sched0 : exists sched, quiescent (exec (sched0 ++ sched) (init ms)).
+Proof.
+  destruct (terminates_from ms (measure (exec sched0 (init ms))) (exec sched0 (init ms)))
+    as (sched & H); [apply reach_inv|lia|].
+  exists sched. revert H. generalize (init ms). induction sched0 as [|p r IH]; intros s H; [exact H|].
+  cbn [app Broker.exec]. apply IH. exact H.
+Qed.
+
+(* ------------------------------------------------------------------------------------------ *)
+(* 6. isolation of documents (on the sequential specification)                                 *)
+
+Hypothesis uri_eqb_spec : forall a b, uri_eqb a b = true <-> a = b.
+
+(* [c] is a notification addressed to document [u] *)
+Definition about (u : uri) (c : cmsg) : bool :=
+  match c with
+  | COpen v _ => uri_eqb v u
+  | CChange v _ => uri_eqb v u
+  | CClose v => uri_eqb v u
+  | _ => false
+  end.
+
+Lemma uri_eqb_refl u : uri_eqb u u = true.
+Proof. apply uri_eqb_spec. reflexivity. Qed.
+
+Lemma lookup_remove_same (m : docs) u : lookup (remove m u) u = None.
+Proof.
+  induction m as [|[w d] m IH]; [reflexivity|]. cbn.
+  destruct (uri_eqb w u) eqn:E; [exact IH|]. cbn. rewrite E. exact IH.
+Qed.
+
+Lemma lookup_remove_other (m : docs) v u : uri_eqb v u = false -> lookup (remove m v) u = lookup m u.
+Proof.
+  intros H. induction m as [|[w d] m IH]; [reflexivity|]. cbn.
+  destruct (uri_eqb w v) eqn:E.
+  - apply uri_eqb_spec in E. subst w. rewrite H. exact IH.
+  - cbn. rewrite IH. reflexivity.
+Qed.
+
+Lemma lookup_insert_same (m : docs) u d : lookup (insert m u d) u = Some d.
+Proof. unfold Broker.insert. cbn. rewrite uri_eqb_refl. reflexivity. Qed.
+
+Lemma lookup_insert_other (m : docs) v u d : uri_eqb v u = false -> lookup (insert m v d) u = lookup m u.
+Proof. intros H. unfold Broker.insert. cbn. rewrite H. apply lookup_remove_other. exact H. Qed.
+
+Lemma isolation_gen u ms : forall m m', lookup m u = lookup m' u ->
+  lookup (seq_docs m ms) u = lookup (seq_docs m' (filter (about u) ms)) u.
+Proof.
+  induction ms as [|c ms IH]; intros m m' H; [exact H|].
+  cbn [filter]. destruct c as [v p|v p|v|id r|id k|]; cbn [about];
+    try (cbn [seq_docs]; apply IH; exact H).
+  - destruct (uri_eqb v u) eqn:E; cbn [seq_docs]; apply IH.
+    + apply uri_eqb_spec in E. subst v. rewrite !lookup_insert_same. reflexivity.
+    + rewrite lookup_insert_other; assumption.
+  - destruct (uri_eqb v u) eqn:E; cbn [seq_docs].
+    + apply uri_eqb_spec in E. subst v. rewrite <- H.
+      destruct (lookup m u) as [d0|] eqn:L; apply IH.
+      * rewrite !lookup_insert_same. reflexivity.
+      * rewrite L. exact H.
+    + destruct (lookup m v); apply IH; [rewrite lookup_insert_other|]; assumption.
+  - destruct (uri_eqb v u) eqn:E; cbn [seq_docs]; apply IH.
+    + apply uri_eqb_spec in E. subst v. rewrite !lookup_remove_same. reflexivity.
+    + rewrite lookup_remove_other; assumption.
+Qed.
+
+Theorem isolation u ms :
+  lookup (seq_docs [] ms) u = lookup (seq_docs [] (filter (about u) ms)) u.
+Proof. apply isolation_gen. reflexivity. Qed.
+
+Theorem closed_none m ms u : lookup (seq_docs m (ms ++ [CClose u])) u = None.
+Proof. rewrite seq_docs_snoc. cbn [msg_docs]. apply lookup_remove_same. Qed.
+
+(* a closed document stays absent until it is opened again *)
+Lemma absent_until_open u ms : forall m,
+  lookup m u = None -> (forall p, ~ In (COpen u p) ms) -> lookup (seq_docs m ms) u = None.
+Proof.
+  induction ms as [|c ms IH]; intros m H Hno; [exact H|].
+  assert (Hno' : forall p, ~ In (COpen u p) ms) by (intros p Hp; apply (Hno p); right; exact Hp).
+  destruct c as [v p|v p|v|id r|id k|]; cbn [seq_docs]; try (apply IH; assumption).
+  - apply IH; [|assumption]. destruct (uri_eqb v u) eqn:E.
+    + apply uri_eqb_spec in E. subst v. exfalso. apply (Hno p). left. reflexivity.
+    + rewrite lookup_insert_other; assumption.
+  - destruct (lookup m v) as [d0|] eqn:L; apply IH; try assumption.
+    destruct (uri_eqb v u) eqn:E.
+    + apply uri_eqb_spec in E. subst v. rewrite H in L. discriminate.
+    + rewrite lookup_insert_other; assumption.
+  - apply IH; [|assumption]. destruct (uri_eqb v u) eqn:E.
+    + apply uri_eqb_spec in E. subst v. apply lookup_remove_same.
+    + rewrite lookup_remove_other; assumption.
+Qed.
+
+Theorem closed_until_open m ms ms' u :
+  (forall p, ~ In (COpen u p) ms') -> lookup (seq_docs m (ms ++ CClose u :: ms')) u = None.
+Proof.
+  intros H. rewrite seq_docs_app. cbn [seq_docs]. apply absent_until_open; [|exact H].
+  apply lookup_remove_same.
+Qed.
+
 End BrokerProofs.
+
+(* ------------------------------------------------------------------------------------------ *)
+(* a concrete instance for the examples of Props/C20.v: URIs and texts are numbers / lists of
+   numbers, opening stores the text, a change appends, a request returns the stored text (or []
+   for an unknown document), diagnostics carry the analysed text, channels have capacity 2 *)
+Module BrokerDemo.
+  Definition dmsg := cmsg N (list N) N.
+  Definition dout := out N (list N).
+  Definition dstate_t := state N (list N) (list N) N (list N).
+  Definition d_answer (_ : N) (d : option (list N)) : list N := match d with Some t => t | None => [] end.
+  Definition d_exec (sd : bool) (cap : nat) : list proc -> dstate_t -> dstate_t :=
+    exec N N.eqb (list N) (list N) N (list N) (fun p => p) (@app N) (fun r => r) d_answer
+         (fun k => [k]) (fun _ d => d) sd cap.
+  Definition d_init (ms : list dmsg) : dstate_t := init N (list N) (list N) N (list N) ms.
+  Definition d_spec (sd : bool) (ms : list dmsg) : list dout :=
+    seq_run N N.eqb (list N) (list N) N (list N) (fun p => p) (@app N) (fun r => r) d_answer
+            (fun k => [k]) (fun _ d => d) sd [] ms.
+  Definition d_docs (ms : list dmsg) : docs N (list N) :=
+    seq_docs N N.eqb (list N) (list N) N (fun p => p) (@app N) [] ms.
+  Definition d_quiescent (s : dstate_t) : Prop := @quiescent N (list N) (list N) N (list N) s.
+  Definition d_written (s : dstate_t) : list dout := @written N (list N) (list N) N (list N) s.
+
+  Fixpoint rounds (n : nat) (round : list proc) : list proc :=
+    match n with O => [] | S k => round ++ rounds k round end.
+
+  (* 12 messages over documents 1 and 2 *)
+  Definition burst : list dmsg :=
+    [ COpen 1%N [10%N]; COpen 2%N [20%N]; CChange 1%N [11%N]; CReq 100%N 1%N; CChange 2%N [21%N];
+      CLocal 101%N 7%N; CReq 102%N 2%N; CClose 1%N; CReq 103%N 1%N; CChange 1%N [12%N]; CIgnored;
+      CReq 104%N 2%N ].
+End BrokerDemo.
